@@ -228,6 +228,8 @@ int main(int argc, char **argv) {
     rng.reseed(seed * 1000003ull + fnv1a(mode.data(), mode.size()) % 1000 + args.i("salt", 0));
     // where objects live: as malloc places them, or successive blocks taken in turn from regions terabytes apart
     { int hp = args.i("heapphase", -1); set_heap_phase(hp); out.cell(hp == 100 ? "heap:blocks-spread-over-distant-regions" : hp < 0 ? "heap:as-malloc-places-it" : "heap:fixed-residue-mod-32"); }
+    // process history: the same operations in other dimensions come first
+    if (args.i("prelude", 0)) { lwe_ops(13, 2); lwe_ops(6, 2); tlwe_ops(32, 2, 1); extraction(4, 3, 1); out.cell("history:other-dimensions-used-first-in-this-process"); }
     if (mode == "lwe") {
         for (int n: parse_list(args.s("n", "1,2,3"))) lwe_ops(n, reps);
         out.sample(J().s("mode", "lwe").s("n", args.s("n")).i("reps", reps).s("ops", "AddTo,SubTo,AddMulTo,SubMulTo,Copy,Negate,Clear,NoiselessTrivial,aliased AddTo/SubTo/Negate/AddMulTo,lwePhase").s("p_values", "0,+-1,+-2,+-32767,INT32_MIN,INT32_MAX,random"));
